@@ -42,6 +42,8 @@ pub fn check(tier: Tier) -> Check {
     // a publish abandoned while its request is still queued (context task held back): it is sent, its
     // late acknowledgement frees the slot
     parts.push(Part::new("C15/abandoned-queued", json!({}), 0, 60));
+    // more abandoned operations than there are packet identifiers
+    parts.push(Part::new("C15/many-cancelled", json!({}), 0, 120));
     // a rolling population of subscriptions: streams dropped, subscribes abandoned before their SUBACK,
     // new subscriptions made - the survivors and the newcomers get every message
     parts.push(Part::new("C15/rolling", json!({"rounds": tier.pick(10, 30)}), 0, 120));
@@ -180,7 +182,58 @@ pub fn abandoned_queued(prop: &'static str, name: String, params: Value) -> Scen
     })
 }
 
+/// 65 600 operations in a row, each abandoned after its request went out and acknowledged late; then
+/// ordinary operations: whatever an implementation keeps per abandoned operation, it must not run out.
+fn many_cancelled(name: String, params: Value) -> Scenario {
+    Box::new(move |chz, ex| {
+        let kind = chz.choose(3);
+        let mut sys = Sys::new("C15", &name, chz);
+        sys.params = params.clone();
+        sys.m.check_client_acks = false;
+        sys.bring_up(vec![]);
+        for i in 0..65_600usize {
+            if sys.dead {
+                break;
+            }
+            let spec = match kind {
+                0 => OpSpec::Publish(PublishSpec::simple(1, "t", b"a")),
+                1 => OpSpec::Unsubscribe(UnsubscribeSpec::simple("s")),
+                _ => if i % 2 == 0 { OpSpec::Publish(PublishSpec::simple(1, "t", b"a")) } else { OpSpec::Subscribe(SubscribeSpec::simple("s")) },
+            };
+            sys.apply(Ev::Start(spec));
+            let op = sys.m.ops.len() - 1;
+            sys.apply(Ev::Cancel(op));
+            if let Some(a) = sys.ack_for(op, 0, "") {
+                sys.apply(Ev::Deliver(a));
+            }
+        }
+        for spec in [
+            OpSpec::Publish(PublishSpec::simple(1, "t/after", b"x")),
+            OpSpec::Subscribe(SubscribeSpec::simple("s/after")),
+            OpSpec::Unsubscribe(UnsubscribeSpec::simple("s/after")),
+            OpSpec::Publish(PublishSpec::simple(2, "t/after", b"y")),
+        ] {
+            sys.apply(Ev::Start(spec));
+            let op = sys.m.ops.len().saturating_sub(1);
+            let mut guard = 0;
+            while let Some(a) = sys.ack_for(op, 0, "") {
+                sys.apply(Ev::Deliver(a));
+                guard += 1;
+                if sys.dead || guard > 3 {
+                    break;
+                }
+            }
+        }
+        sys.finish();
+        sys.events = vec![format!("65 600 abandoned operations (kind {}) acknowledged late, then four ordinary ones", kind)];
+        sys.report(ex, &["puback", "suback", "unsuback", "pubcomp"]);
+    })
+}
+
 pub fn scenario(name: &str, params: &Value) -> Scenario {
+    if name == "C15/many-cancelled" {
+        return many_cancelled(name.to_string(), params.clone());
+    }
     if name == "C15/abandoned-queued" {
         return abandoned_queued("C15", name.to_string(), params.clone());
     }
